@@ -1,8 +1,8 @@
 """Ownership of set iteration order (property C15).
 
 `install()` puts a meta-path finder in front of the import system that loads every `bespokeasm`
-module from the working tree through an AST rewrite: `set(...)` / `frozenset(...)` calls, set displays and set
-comprehensions build a `ChoiceSet`, a `set` subclass whose `__iter__` asks the scheduler for an
+module from the working tree through an AST rewrite: `set(...)` / `frozenset(...)` calls, set displays, set
+comprehensions and the results of `-`, `|`, `&`, `^` that are plain sets build a `ChoiceSet`, a `set` subclass whose `__iter__` asks the scheduler for an
 order.  Membership, length and algebra are unchanged.  Each iteration of a set that contains a
 hash-randomised element (str / bytes / object) is a *choice point*:
 
@@ -128,6 +128,15 @@ class ChoiceFrozenSet(frozenset):
         return iter(items)
 
 
+def _wrapset(x):
+    t = type(x)
+    if t is set:
+        return ChoiceSet(x)
+    if t is frozenset:
+        return ChoiceFrozenSet(x)
+    return x
+
+
 class _Rewriter(ast.NodeTransformer):
     def visit_Call(self, node):
         self.generic_visit(node)
@@ -135,6 +144,14 @@ class _Rewriter(ast.NodeTransformer):
             node.func = ast.Name(id='verif_ChoiceSet_', ctx=ast.Load())
         elif isinstance(node.func, ast.Name) and node.func.id == 'frozenset':
             node.func = ast.Name(id='verif_ChoiceFrozenSet_', ctx=ast.Load())
+        return node
+
+    def visit_BinOp(self, node):
+        # a set can also come out of an operator whose left operand is not one of ours (dict.keys() - other, set algebra on a set
+        # returned by a library): wrap the result if - and only if - it is a plain set / frozenset
+        self.generic_visit(node)
+        if isinstance(node.op, (ast.Sub, ast.BitOr, ast.BitAnd, ast.BitXor)):
+            return ast.Call(func=ast.Name(id='verif_wrapset_', ctx=ast.Load()), args=[node], keywords=[])
         return node
 
     def visit_Set(self, node):
@@ -180,5 +197,6 @@ def install():
         raise RuntimeError('bespokeasm was imported before the set-order hook was installed')
     builtins.verif_ChoiceSet_ = ChoiceSet
     builtins.verif_ChoiceFrozenSet_ = ChoiceFrozenSet
+    builtins.verif_wrapset_ = _wrapset
     sys.meta_path.insert(0, _Finder())
     _installed = True
